@@ -183,6 +183,49 @@ def main():
     def m_ends_with(e, m, a):
         return match_prefix(e, chars_of(e, a[0]), pattern_list(deref(e, a[1])), at_end=True) is not None
 
+    def m_trim_matches(e, m, a):
+        chars = list(chars_of(e, a[0]))
+        alts = pattern_list(deref(e, a[1]))
+        if any(len(x) != 1 for x in alts):
+            raise Unsupported("trim_matches with a multi-character pattern")
+        pats = [x[0] for x in alts]
+        which = m.group(1)
+
+        def is_pat(c):
+            conds = [c == p for p in pats]
+            if any(x is True for x in conds):
+                return True
+            sym = [x for x in conds if is_sym(x)]
+            return bool(sym) and e.decide(z3.Or(*sym))
+        if which in ("trim_matches", "trim_start_matches"):
+            while chars and is_pat(chars[0]):
+                chars.pop(0)
+        if which in ("trim_matches", "trim_end_matches"):
+            while chars and is_pat(chars[-1]):
+                chars.pop()
+        return ("chars", chars)
+
+    def m_is_digit(e, m, a):
+        c, radix = a[0], a[1]
+        d = digit_value(c)
+        return z3.And(d >= 0, d < radix) if is_sym(d) else (0 <= d < radix)
+
+    def m_to_digit(e, m, a):
+        c, radix = a[0], a[1]
+        d = digit_value(c)
+        if e.decide(z3.And(d >= 0, d < radix) if is_sym(d) else (0 <= d < radix)):
+            return ("Some", d)
+        return ("None",)
+
+    def m_is_ascii_class(e, m, a):
+        c = deref(e, a[0])
+        k = m.group(1)
+        rng = {"digit": [(48, 57)], "hexdigit": [(48, 57), (65, 70), (97, 102)], "alphabetic": [(65, 90), (97, 122)],
+               "alphanumeric": [(48, 57), (65, 90), (97, 122)], "uppercase": [(65, 90)], "lowercase": [(97, 122)]}[k]
+        if is_sym(c):
+            return z3.Or(*[z3.And(c >= lo, c <= hi) for lo, hi in rng])
+        return any(lo <= c <= hi for lo, hi in rng)
+
     def m_as_bytes(e, m, a):
         out = []
         for c in chars_of(e, a[0]):
@@ -390,6 +433,11 @@ def main():
         (r"^core::str::<impl str>::strip_suffix::<.*>$", m_strip_suffix),
         (r"^core::str::<impl str>::starts_with::<.*>$", m_starts_with),
         (r"^core::str::<impl str>::ends_with::<.*>$", m_ends_with),
+        (r"^core::str::<impl str>::(trim_matches|trim_start_matches|trim_end_matches)::<.*>$", m_trim_matches),
+        (r"^char::methods::<impl char>::is_digit$", m_is_digit),
+        (r"^char::methods::<impl char>::to_digit$", m_to_digit),
+        (r"^char::methods::<impl char>::is_ascii_(digit|hexdigit|alphabetic|alphanumeric|uppercase|lowercase)$", m_is_ascii_class),
+        (r"^core::str::<impl str>::is_empty$", lambda e, m, a: len(chars_of(e, a[0])) == 0),
         (r"^core::str::<impl str>::as_bytes$", m_as_bytes),
         (r"^(?:core|std)::slice::<impl \[u8\]>::to_vec$", lambda e, m, a: ["bytebuf", list(a[0][1])]),
         (r"^core::str::<impl str>::chars$", m_chars),
@@ -415,6 +463,8 @@ def main():
         (r"^char::methods::<impl char>::encode_utf8$", m_encode_utf8),
         (r"^<\[u8; 4\] as Index<RangeTo<usize>>>::index$", m_index_range_to),
         (r"^Option::<.*>::ok_or::<.*>$", m_ok_or),
+        (r"^Option::<.*>::unwrap_or$", lambda e, m, a: a[0][1] if a[0][0] == "Some" else a[1]),
+        (r"^Option::<.*>::unwrap_or_default$", lambda e, m, a: a[0][1] if a[0][0] == "Some" else 0),
         (r"^Result::<.*>::map_err::<.*\{closure@.*\}>$", ext_res_map_err),
         (r"^Result::<.*>::and_then::<.*\{closure@.*\}>$", ext_res_and_then),
         (r"^Result::<.*>::map::<.*\{closure@.*\}>$", ext_res_map),
@@ -432,9 +482,17 @@ def main():
         (r"^parser::Parser::report_error::<.*>$", m_report_error),
     ] + STD_MODELS
 
+    def ext_const(name):
+        std_chars = {"REPLACEMENT_CHARACTER": 0xFFFD, "MAX": 0x10FFFF, "MIN": 0}
+        m = re.match(r"^(?:std|core)::char::methods::<impl char>::(\w+)$", name)
+        if m and m.group(1) in std_chars:
+            return std_chars[m.group(1)]
+        return None
+
     def engine():
         e = Engine(fns, consts, extern, max_steps=60000)
         e.chars_as_ints = True
+        e.ext_const = ext_const
         e.discriminants = {"Result::Ok": 0, "Result::Err": 1, "ControlFlow::Continue": 0, "ControlFlow::Break": 1}
         return e
 
